@@ -637,8 +637,16 @@ func (h *harness) applyLifecycle(t []string) string {
 			out = "shutdown=" + strings.ReplaceAll(err.Error(), " ", "-")
 		}
 		select {
-		case <-runDone:
+		case rerr := <-runDone:
+			// Run saw that Shutdown came first and returned without opening a listener
 			out += " run=returned"
+			if rerr != nil {
+				out += "-" + strings.ReplaceAll(rerr.Error(), " ", "-")
+			}
+			if waitPort(port, 50*time.Millisecond) {
+				h.flag("sigterm-stops-server:early", "Run returned but something listens on the port")
+			}
+			_ = s.Close()
 		case <-time.After(700 * time.Millisecond):
 			if waitPort(port, time.Second) {
 				out += " run=serving"
